@@ -166,8 +166,13 @@ def run(prog, chk, tier):
                     num = Lin.var("e3@" + lv)
                     payload = c[1]
                     code_v = payload.get(0) if isinstance(payload, Struct) else None
-                    ok = st.sys.entails_ge(Lin.const(99) - num) and isinstance(code_v, Num) and \
-                        st.sys.entails_ge(code_v.e - num - 300) and st.sys.entails_ge(Lin.const(600) - code_v.e + num)
+                    if ("e3@" + lv) in st.sys.vars():
+                        ok = st.sys.entails_ge(Lin.const(99) - num) and isinstance(code_v, Num) and \
+                            st.sys.entails_ge(code_v.e - num - 300) and st.sys.entails_ge(Lin.const(600) - code_v.e + num)
+                    else:
+                        # the number byte is read through another window of the value (e.g. split_at): the code itself must
+                        # still be class * 100 + number with class in 3..=6 and number <= 99, i.e. 300..=699
+                        ok = isinstance(code_v, Num) and st.sys.entails_ge(code_v.e - 300) and st.sys.entails_ge(Lin.const(699) - code_v.e)
                     chk.ob("error-code-range", "ERROR-CODE: Ok => number byte <= 99 and class (code - number) / 100 in 3..=6", ok,
                            detail="Ok state: %r" % (st.sys,), how="E2 return state")
             elif c[0] == "Err" and kind == "addr" and lv is not None and c[1] not in ("WrongAttributeImplementation",):
